@@ -164,6 +164,10 @@ def adc_oracle(ctx, args, kwargs, result, exc, pre):
             # a converter rails at full scale: the output stays non-decreasing in the input (it does not wrap around)
             ref = np.minimum(ref, rm.LD(info.max))
             ctx.bucket('adc:beyond-dtype-range')
+    if got.dtype.kind == 'f' and got.dtype.itemsize < 8:
+        # a floating point output type with fewer digits than the count (float32 beyond 2**24): the floor, stored in that type
+        with np.errstate(all='ignore'):
+            ref = ref.astype(got.dtype).astype(rm.LD)
     diff = got.astype(rm.LD) - ref
     # (beyond 2**53 counts neighbouring doubles are more than one count apart: the gain polynomial evaluated in double precision is
     # the floor only to a few ulp of its value)
